@@ -19,6 +19,15 @@ def noisy_world(level=1):
                  ["top", "a", "b", "c"], ["top"])
 
 
+def noisy_shared_world():
+    """a and b both need d: under -j2 one of them finds d locked, and the viewer may meet that job's `locked d` record
+    before the other job's `do d`"""
+    return World("noisy-shared", {"s": ["0", "1"]},
+                 {"top.do": [S(deps=["a", "b"], noise=1)], "a.do": [S(deps=["d"], noise=1, out="file")],
+                  "b.do": [S(deps=["d"], noise=1)], "d.do": [S(deps=["s"], noise=1)]},
+                 ["top", "a", "b", "d"], ["top"])
+
+
 def scenarios(tier):
     q = tier == "quick"
     w = noisy_world(1)
@@ -31,6 +40,8 @@ def scenarios(tier):
                      post_cmds=post, poll_at="h:"), 0 if q else 1))
     L.append((SC.scn("noisy-j2-follower-polls-every-fragment", w, ["redo --no-color -j2 top"], visible=VIS, log_mode=True,
                      post_cmds=post, poll_at="h:"), 0 if q else 1))
+    L.append((SC.scn("noisy-shared-dependency-j2", noisy_shared_world(), ["redo --no-color -j2 top"], visible=VIS, log_mode=True,
+                     post_cmds=post), 1 if q else 2))
     # every script ends with an unterminated line
     L.append((SC.scn("noisy-unterminated-last-line-j1", noisy_world(4), ["redo --no-color top"], visible=VIS, log_mode=True,
                      post_cmds=post, unterminated=True), 0 if q else 1))
